@@ -362,7 +362,7 @@ def run(ck, F):
                         ck.violation("R1", f"debug-non-str:{key}", ev.site,
                                      f"{fnshort}: `{og.nf_str(nf)[:70]}` of type `{tys}` is Debug-formatted into code: its Debug output is not a string literal", fn=fnshort)
                     elif ctx in ("ident", "code"):
-                        if tys.endswith("RustFieldType"):
+                        if tys.endswith("RustFieldType") or str(TY.ty(nf, root_ty) or "").endswith("RustFieldType"):
                             ck.ok("R1", key, ev.site, "type position filled by RustFieldType's Display (its own holes are checked in the Display arms)", fn=fnshort)
                             continue
                         problems = set()
